@@ -146,6 +146,11 @@ def gen_world(rng, prop):
     if mode in ("stub", "hybrid"):
         H = 0.0625 if mode == "stub" else _pow2_floor(dxmin / speed)
         nseg = wchoice(rng, [(1, 35), (2, 20), (3, 20), (5, 25)])
+        if mkind == "convection":
+            # fidelity: the time step of the (only) linear model does not depend on the state,
+            # so a scheduler-owned tick source must not vary in time there either (per-cell
+            # weights stand for cell sizes and stay)
+            nseg = 1
         if nseg == 1:
             ms = [1.0]
         else:
@@ -162,7 +167,7 @@ def gen_world(rng, prop):
                 x += H * rng.choice([1, 2, 3, 4, 0.5, 2.5]) * rng.choice([0.5, 1.0])
             bp.append(x)
         rows = []
-        for _ in range(rng.choice([1, 1, 2, 3])):
+        for _ in range(rng.choice([1, 1, 2, 3]) if mkind != "convection" else 1):
             if rng.random() < 0.5:
                 row = [1.0] * ncell
             else:
